@@ -57,7 +57,9 @@ class CellsBoundFunction(BoundFunction):
         if closure is not None:  # pytest fails without this.
             closure = create_closure(self.owner.interface)
 
-        ns = {k: v._impl.call if isinstance(v, Cells) else v
+        # References to deleted cells are kept as they are,
+        # so that an error is raised only when they are used.
+        ns = {k: v._impl.call if isinstance(v, Cells) and v._is_valid() else v
               for k, v in self.owner.namespace.interfaces.items()}
 
         self.altfunc = FunctionType(
